@@ -95,7 +95,7 @@ def run(ctx, rep):
     # constructor corner: a single crossover named 'empty'
     runs.append(("SelfCGA", dict(crossovers=("empty",))))
     runs.append(("PDPGA", dict(crossovers=("empty",))))
-    for item in runs:
+    for run_no, item in enumerate(runs):
         kind, forced = (item, {}) if isinstance(item, str) else item
         gp = kind.endswith("GP")
         sels = subset(ctx.rng, GA_S)
@@ -107,12 +107,17 @@ def run(ctx, rep):
         thr = ctx.rng.choice([0.01, 0.05, 0.1])
         seed = ctx.rng.randrange(1 << 30)
         obj = L.Objective(ctx.rng.choice(["onemax", "plateau", "const", "weighted"]))
+        if isinstance(item, str) and run_no % 2 == 1:
+            # fitness values of wildly different magnitude in one population (maximised / minimised)
+            obj = L.Objective("penalty" if run_no % 4 == 3 else "penalty_min")
         thr_c, thr_m = ctx.rng.choice([0.01, 0.05, 0.1, 0.2]), ctx.rng.choice([0.01, 0.05, 0.1, 0.2])
         if len(cxs) * thr_c > 1 or len(mus) * thr_m > 1:
             thr_c = thr_m = thr
         kw = dict(iters=iters, pop_size=pop, selections=sels, crossovers=cxs, mutations=mus, selection_threshold_proba=thr,
                   crossover_threshold_proba=thr_c, mutation_threshold_proba=thr_m, random_state=seed, tour_size=3, parents_num=3,
                   keep_history=True)
+        if obj.kind == "penalty_min":
+            kw["minimization"] = True
         if kind.startswith("SelfC"):
             kw["K"] = K
         else:
@@ -235,6 +240,21 @@ def run(ctx, rep):
                 continue
             ds = [d for d in st["draws"] if d[0] in ("U", "I")]
             case = dict(where, pre_maps=p0, pre_labels=lab0, fitness=st["fit"], previous=st["prev"], draws=ds, post_maps=p1, post_labels=lab1)
+            if obj.kind.startswith("penalty") and len({float(v) for v in st["fit"]} & {-1e20, 1e20}) and kind.startswith("SelfC"):
+                # float group means absorb the O(10) terms next to 1e20: an exact near-tie of two penalised groups is a float tie.
+                # The documented rule is checked in float arithmetic above; the exact model only when the winner is clear of ties.
+                import fractions as _fr
+                skip = False
+                for t in range(3):
+                    ms = {}
+                    for l, f in zip(lab0[t], st["fit"]):
+                        ms.setdefault(l, []).append(_fr.Fraction(f))
+                    mv = sorted((sum(v) / len(v) for v in ms.values()), reverse=True)
+                    if len(mv) > 1 and abs(mv[0] - mv[1]) <= abs(mv[0]) * _fr.Fraction(1, 10 ** 9):
+                        skip = True
+                if skip:
+                    rep.hist("exact_model_skipped_near_tie", kind)
+                    continue
             if kind.startswith("SelfC"):
                 f_sc.add(f"({C.cq(K)}, {C.cq(iters)}, ({C.cq(thrs[0])}, {C.cq(thrs[1])}, {C.cq(thrs[2])}), {C.cnat(pop)}, {maps_term(p0)}, {ops_term(lab0)}, "
                          f"{qlist(st['fit'])}, {C.cdraws(ds)}, {maps_term(p1)}, {ops_term(lab1)})", case)
